@@ -152,19 +152,19 @@ func (s *E2EScenario) Setup(k *sim.Kernel) {
 		var pipe *sim.Conn
 		if cl.Transport == "bridge" {
 			pipe = k.NewPipePair()
-			k.Spawn(fmt.Sprintf("bridge%d", ci), func() {
+			k.Spawn(sf("bridge%d", ci), func() {
 				sim.Await(sim.Cond{Kind: sim.CondBound, S1: network, S2: addr})
 				bridgeTask(pipe.Server, network, addr)
 			})
 		}
-		k.Spawn(fmt.Sprintf("client%d", ci), func() {
+		k.Spawn(sf("client%d", ci), func() {
 			sim.Await(sim.Cond{Kind: sim.CondBound, S1: network, S2: addr})
 			conn, ep, err := dialClient(cl.Transport, network, addr, pipe)
 			if err != nil {
-				sim.Rec("c.dialfail", fmt.Sprint(ci))
+				sim.Rec("c.dialfail", sp(ci))
 				return
 			}
-			sim.Rec("c.dial", fmt.Sprintf(`{"client":%d,"conn":%d}`, ci, sim.ConnID(ep)))
+			sim.Rec("c.dial", sf(`{"client":%d,"conn":%d}`, ci, sim.ConnID(ep)))
 			ctx := context.Background()
 			expected := s.expectedReads(cl)
 			for i, call := range cl.Calls {
@@ -181,7 +181,7 @@ func (s *E2EScenario) Setup(k *sim.Kernel) {
 				}
 				recv, err := conn.Send(ctx, call.Method, rawOrNil(call.Params), call.Flags)
 				if err != nil {
-					sim.Rec("c.sendfail", fmt.Sprintf(`{"client":%d,"call":%d}`, ci, i))
+					sim.Rec("c.sendfail", sf(`{"client":%d,"call":%d}`, ci, i))
 					break
 				}
 				broken := false
@@ -200,7 +200,7 @@ func (s *E2EScenario) Setup(k *sim.Kernel) {
 					break
 				}
 			}
-			sim.Rec("c.done", fmt.Sprint(ci))
+			sim.Rec("c.done", sp(ci))
 			sim.Await(sim.Cond{Kind: sim.CondQuiescent})
 			conn.Close()
 		})
@@ -352,7 +352,7 @@ func (s *E2EScenario) Check(k *sim.Kernel) []sim.Violation {
 	}
 	quiet := k.StopReason() == "quiescent"
 	for ci, cl := range s.Clients {
-		key := fmt.Sprintf("client%d(%s)", ci, cl.Transport)
+		key := sf("client%d(%s)", ci, cl.Transport)
 		conn := svcConn[ci]
 		if conn == nil || clientEnd[ci] == nil {
 			out = append(out, vio("harness", key, "client never connected"))
@@ -464,7 +464,7 @@ func (s *E2EScenario) Check(k *sim.Kernel) []sim.Violation {
 }
 
 func bridgeTaskID(k *sim.Kernel, ci int) string {
-	id := k.RootID(fmt.Sprintf("bridge%d", ci))
+	id := k.RootID(sf("bridge%d", ci))
 	if id == "" {
 		return "no-such-task"
 	}
@@ -474,7 +474,7 @@ func bridgeTaskID(k *sim.Kernel, ci int) string {
 // compareClientReply: what the client API returned for one predicted reply.
 func compareClientReply(key string, i int, c E2ECall, r ReplyModel, o e2eReply) *sim.Violation {
 	mk := func(k2, format string, a ...interface{}) *sim.Violation {
-		v := vio("client", k2, "%s call %d (cid %d, %s): %s", key, i, c.Cid, c.Method, fmt.Sprintf(format, a...))
+		v := vio("client", k2, "%s call %d (cid %d, %s): %s", key, i, c.Cid, c.Method, sf(format, a...))
 		return &v
 	}
 	if r.Error == "" {
